@@ -35,6 +35,49 @@ CHECKS = {
         "DESIGN.md section 5 C01",
         NOTE_MODEL,
     ),
+
+    "C02": core(
+        "c02",
+        "states = all (r0, r1[, carry register]) tuples of each plan (FULL^2 and FULL^3 for carrying_mul at 8 bits, FULL x GRID / FULL^2 at 16 bits, boundary-digit GRID^2 x 10 carries elsewhere); every multiplication form compared with the exact product (hi*2^BITS + lo = a*b + c for the widening helpers); non-trivial = overflow flag / None / strict panic expected",
+        "All multiplication forms (overflowing/checked/wrapping/saturating/strict/unchecked, widening_mul, carrying_mul) agree with the exact integer product on every enumerated tuple in both build profiles.",
+        "DESIGN.md section 5 C02",
+        NOTE_MODEL,
+    ),
+    "C03": core(
+        "c03",
+        "states = all (dividend, divisor) pairs of each plan (FULL^2 at 8 bits, FULL x GRID / FULL^2 at 16 bits, boundary-digit GRID^2 with N = 2, 3 for every digit width, which reaches every branch of Knuth D); every div/rem form compared with the model's bit-serial division and the rounding rule of the function; non-trivial = None / overflow flag (zero divisor, MIN / -1)",
+        "Every division and remainder form satisfies n = q*d + r with the documented rounding on every enumerated pair; zero divisors give None from checked forms; MIN / -1 is reported as the statement lists. Zero-divisor panics are left to C04.",
+        "DESIGN.md section 5 C03",
+        NOTE_MODEL,
+    ),
+    "C05": core(
+        "c05",
+        "states = (value, amount): FULL values up to 16 bits (24 in the thorough tier), boundary-digit sets beyond; amounts = every s <= BITS+2 (digit boundaries +-1 for wide types) plus 2*BITS-1.., 3*BITS, 255, 256, 2^16, 2^31, 2^32-2, 2^32-1; all shift forms, unbounded shifts, rotations and rotl/rotr round trips compared with bit-vector semantics; non-trivial = None / flag / strict panic (amount >= BITS)",
+        "Shifts and rotations agree with bit-vector semantics for every enumerated (value, amount), including amounts >= BITS and widths that are not powers of two.",
+        "DESIGN.md section 5 C05",
+        NOTE_MODEL,
+    ),
+    "C06": core(
+        "c06",
+        "states = values (FULL up to 16 bits, 24 in the thorough tier; boundary sets incl. every single-bit / prefix / suffix / digit-run mask beyond) x bit indices x (for set_bit) values, all two-step set_bit sequences on 8/16-bit types, pairs for the logic operators; compared with the model's bit pattern; non-trivial = None from checked_next_power_of_two",
+        "Bitwise logic, counts, bit/set_bit, power_of_two, next_power_of_two, swap_bytes and reverse_bits (and their involution) agree with the exact bit pattern on every enumerated state.",
+        "DESIGN.md section 5 C06",
+        NOTE_MODEL,
+    ),
+    "C07": core(
+        "c07",
+        "states = all pairs of each plan (FULL^2 at 8 bits, FULL x GRID at 16, GRID^2 elsewhere: pairs agreeing on all high digits / differing only in the sign bit are in the product) and triples for clamp; operators, trait methods and const twins compared with the order of the denoted integers; Hash: byte stream fed to a recording Hasher and a fixed-key SipHash digest must be equal for equal values and the stream must determine the digits; non-trivial = pairs comparing Equal",
+        "Comparison, equality, min/max/clamp, sign predicates and Hash agree with the numeric value on every enumerated pair/triple.",
+        "DESIGN.md section 5 C07",
+        NOTE_MODEL,
+    ),
+    "C08": core(
+        "c08",
+        "states = (base, exponent): FULL bases up to 16 bits, boundary sets plus floor(2^(BITS/j))+-1 (exact roots of the range, also negated) and b^k-1, b^k, b^k+1 beyond; exponents 0..=BITS+1, 2^j, 2^j+-1, 2^32-2, 2^32-1; (x, base) pairs for ilog: FULL^2 at 8 bits, x in {b^k-1, b^k, b^k+1} for a base list elsewhere; compared with exact powers (early exit) and modular exponentiation in the model; non-trivial = overflow flag / None / strict panic",
+        "pow in all overflow modes and ilog/ilog2/ilog10 (+checked) agree with exact big-integer powers on every enumerated state.",
+        "DESIGN.md section 5 C08",
+        NOTE_MODEL,
+    ),
 }
 
 ALL = ["C%02d" % i for i in range(1, 21)]
